@@ -73,6 +73,10 @@ Proof.
   intros H. split; [|assumption]. constructor; cbn; [unfold len; cbn; lia|constructor|exact I].
 Qed.
 
+Theorem ed_pwf_built ops ty code mid max :
+  0 <= max -> Forall ed_bop_ok ops -> ed_pwf (snd (run_ops (pdu_init ty code mid max) ops)).
+Proof. intros. apply ed_pwf_build; [apply ed_pwf_init|]; assumption. Qed.
+
 (* ---- beyond structure: value bytes and the per-option length limits ---- *)
 
 Definition ed_op_fine (code : Z) (e : ed_op) : Prop :=
